@@ -242,6 +242,17 @@ func (dir *ufsDir) dotu(path string, d os.FileInfo, upool Users, sysMode *syscal
 	}
 }
 
+// Reports whether the (cleaned) host path p lies in the tree rooted at ufs.Root.
+func (ufs *Ufs) inside(p string) bool {
+	root := filepath.Clean(ufs.Root)
+	return p == root || strings.HasPrefix(p, strings.TrimSuffix(root, "/")+"/")
+}
+
+// Reports whether name can be the name of a directory entry.
+func validName(name string) bool {
+	return name != "" && name != "." && name != ".." && !strings.Contains(name, "/")
+}
+
 func (*Ufs) ConnOpened(conn *Conn) {
 	if conn.Srv.Debuglevel > 0 {
 		log.Println("connected")
@@ -278,7 +289,7 @@ func (ufs *Ufs) Attach(req *SrvReq) {
 	// You can think of the ufs.Root as a 'chroot' of a sort.
 	// clients attach are not allowed to go outside the
 	// directory represented by ufs.Root
-	fid.path = filepath.Join(ufs.Root, tc.Aname)
+	fid.path = filepath.Join(ufs.Root, filepath.Join("/", tc.Aname))
 
 	req.Fid.Aux = fid
 	err := fid.stat()
@@ -293,7 +304,7 @@ func (ufs *Ufs) Attach(req *SrvReq) {
 
 func (*Ufs) Flush(req *SrvReq) {}
 
-func (*Ufs) Walk(req *SrvReq) {
+func (ufs *Ufs) Walk(req *SrvReq) {
 	fid := req.Fid.Aux.(*ufsFid)
 	tc := req.Tc
 
@@ -312,7 +323,24 @@ func (*Ufs) Walk(req *SrvReq) {
 	path := fid.path
 	i := 0
 	for ; i < len(tc.Wname); i++ {
-		p := path + "/" + tc.Wname[i]
+		var p string
+		switch wname := tc.Wname[i]; {
+		case wname == "..":
+			/* .. at the root stays at the root */
+			if filepath.Clean(path) == filepath.Clean(ufs.Root) {
+				p = path
+			} else {
+				p = filepath.Dir(filepath.Clean(path))
+			}
+		case wname == ".":
+			p = path
+		case validName(wname):
+			p = path + "/" + wname
+		default:
+			/* empty, or containing '/': no directory entry has such a name */
+			p = ""
+		}
+
 		st, err := os.Lstat(p)
 		if err != nil {
 			if i == 0 {
@@ -353,12 +381,17 @@ func (*Ufs) Open(req *SrvReq) {
 	req.RespondRopen(dir2Qid(fid.st), 0)
 }
 
-func (*Ufs) Create(req *SrvReq) {
+func (ufs *Ufs) Create(req *SrvReq) {
 	fid := req.Fid.Aux.(*ufsFid)
 	tc := req.Tc
 	err := fid.stat()
 	if err != nil {
 		req.RespondError(err)
+		return
+	}
+
+	if !validName(tc.Name) {
+		req.RespondError(&Error{"illegal file name", EINVAL})
 		return
 	}
 
@@ -370,6 +403,19 @@ func (*Ufs) Create(req *SrvReq) {
 		e = os.Mkdir(path, os.FileMode(tc.Perm&0777))
 
 	case tc.Perm&DMSYMLINK != 0:
+		/* a link must not lead out of the exported tree */
+		if filepath.IsAbs(tc.Ext) {
+			req.RespondError(Eperm)
+			return
+		}
+
+		for _, elem := range strings.Split(tc.Ext, "/") {
+			if elem == ".." {
+				req.RespondError(Eperm)
+				return
+			}
+		}
+
 		e = os.Symlink(tc.Ext, path)
 
 	case tc.Perm&DMLINK != 0:
@@ -670,12 +716,17 @@ func (u *Ufs) Wstat(req *SrvReq) {
 		// cwd.
 		var destpath string
 		if dir.Name[0] == '/' {
-			destpath = filepath.Join(u.Root, dir.Name)
+			destpath = filepath.Join(u.Root, filepath.Join("/", dir.Name))
 			fmt.Printf("/ results in %s\n", destpath)
 		} else {
 			fiddir, _ := path.Split(fid.path)
 			destpath = filepath.Join(fiddir, dir.Name)
 			fmt.Printf("rel  results in %s\n", destpath)
+		}
+		if !u.inside(destpath) || !u.inside(filepath.Clean(fid.path)) || filepath.Clean(fid.path) == filepath.Clean(u.Root) {
+			/* neither the file nor its new name may be outside the exported tree, and the root stays */
+			req.RespondError(Eperm)
+			return
 		}
 		err := syscall.Rename(fid.path, destpath)
 		fmt.Printf("rename %s to %s gets %v\n", fid.path, destpath, err)
